@@ -1882,7 +1882,14 @@ impl<'de, 'e> de::Deserializer<'de> for YamlDeserializer<'de, 'e> {
                         seed.deserialize(deser).map(Some)
                     }
                 }
-                return visitor.visit_seq(ByteSeq { data, idx: 0 });
+                let mut bytes = ByteSeq { data, idx: 0 };
+                let result = visitor.visit_seq(&mut bytes)?;
+                // As for a written-out sequence: a fixed-arity target that stops early must not
+                // silently drop the remaining bytes.
+                if bytes.idx < bytes.data.len() {
+                    return Err(Error::unexpected("sequence end").with_location(data_location));
+                }
+                return Ok(result);
             }
         }
         self.expect_seq_start()?;
